@@ -44,6 +44,7 @@ type oblSummary struct {
 	Worst     *Obligation
 	Desc      string
 	Tags      []string
+	coverSat  bool
 }
 
 func summarize(obls []*Obligation) []*oblSummary {
@@ -60,6 +61,9 @@ func summarize(obls []*Obligation) []*oblSummary {
 		good := o.Res.Verdict == "unsat"
 		if o.Kind == "cover" {
 			good = o.Res.Verdict == "sat"
+			if good {
+				s.coverSat = true
+			}
 		}
 		if good {
 			if s.Solver == "" {
@@ -75,6 +79,12 @@ func summarize(obls []*Obligation) []*oblSummary {
 		}
 		if o.Res.Time > s.MaxTime {
 			s.MaxTime = o.Res.Time
+		}
+	}
+	// a cover is fine when at least one of its instances (paths) is satisfiable
+	for _, s := range order {
+		if s.Kind == "cover" && s.coverSat {
+			s.OK = true
 		}
 	}
 	return order
@@ -113,7 +123,11 @@ func cmdCheck(prop, tier string) int {
 		if c.Trusted != "" {
 			continue
 		}
-		if x.lookupFunc(k) == nil {
+		fk := k
+		if i := strings.Index(k, "@"); i >= 0 {
+			fk = k[:i]
+		}
+		if x.lookupFunc(fk) == nil {
 			if strings.Contains(k, ".") && !strings.HasPrefix(k, "(") {
 				continue // interface contract
 			}
